@@ -9,3 +9,8 @@ package kauri
 //@   ensures [error-means-overlap-or-absent] result != nil ==> a == nil || b == nil || (exists x hotstuff.ID :: {hotstuff.setmem(hotstuff.parts(a), x)} hotstuff.setmem(hotstuff.parts(a), x) && hotstuff.setmem(hotstuff.parts(b), x))
 //@   loop iter0 invariant [no-overlap-so-far] *canMerge && (forall x hotstuff.ID :: {visited(iter0, x)} visited(iter0, x) ==> !hotstuff.setmem(hotstuff.parts(b), x))
 //@   modifies alloc
+
+// IsSubSet(a, b): every element of a occurs in b.
+//@ func IsSubSet property C09
+//@   ensures [def] result == (forall i int :: {a[i]} 0 <= i && i < len(a) ==> (exists j int :: {b[j]} 0 <= j && j < len(b) && b[j] == a[i]))
+//@   loop 0 invariant [prefix] forall i int :: {a[i]} 0 <= i && i <= rangeindex ==> (exists j int :: {b[j]} 0 <= j && j < len(b) && b[j] == a[i])
